@@ -101,7 +101,8 @@ def unwrap {α : Type} (o : Option α) (why : String) : M α :=
   | some a => pure a
   | none => rustPanic why
 
-/-- Rust's short-circuit `a || b` on `bool`-valued calls (`?` already applied) -/
+/-- Rust's short-circuit `a || b` on `bool`-valued calls (`?` already applied); written `a <or> b` (core's `<||>` is
+the same thing behind a `ToBool` class and `macro_inline`; this one unfolds to a plain `if`) -/
 def orM (a b : M Bool) : M Bool := do if (← a) then pure true else b
 /-- Rust's short-circuit `a && b` -/
 def andM (a b : M Bool) : M Bool := do if (← a) then b else pure false
@@ -125,6 +126,9 @@ def checkedI64 (v : Int) (site : String) : M Int := do
   if i64Min ≤ v ∧ v ≤ i64Max then pure v
   else if (← getSt).overflowChecks then rustPanic s!"{site}: arithmetic overflow"
   else pure (wrapI64 v)
+
+/-- `v.saturating_mul(m).saturating_add(d)` for the non-negative operands it is used with -/
+def satMulAdd (m v d : Int) : Int := if m * v + d ≤ i64Max then m * v + d else i64Max
 
 /-- `x as u32` for `x : i64` -/
 def i64AsU32 (v : Int) : Nat := (v % 4294967296).toNat
@@ -332,7 +336,7 @@ def combineSurrogatePair (lead trail : Int) : Int := (lead - 0xd800) * 0x400 + (
 def validateFlagsLoop : List Nat → List Nat → Except String Unit
   | [], _ => .ok ()
   | flag :: rest, existing =>
-    if existing.contains flag then .error s!"Duplicated flag {flag}"
+    if existing.contains flag then .error s!"Duplicated flag {Char.ofNat flag}"
     else
       if flag == ch 'g' || flag == ch 'i' || flag == ch 'm'
           || (flag == ch 'u' && /- ecma_version >= Es2015 -/ true)
@@ -341,7 +345,7 @@ def validateFlagsLoop : List Nat → List Nat → Except String Unit
           || (flag == ch 'd' && /- ecma_version >= Es2022 -/ true)
           || (flag == ch 'v' && /- ecma_version >= Es2022 -/ true)
       then validateFlagsLoop rest (flag :: existing)
-      else .error s!"Invalid flag {flag}"
+      else .error s!"Invalid flag {Char.ofNat flag}"
 
 /-- `validator.rs:163-187` (`&self`: no state change) -/
 def validateFlags (flags : List Nat) : Except String Unit := validateFlagsLoop flags []
@@ -406,8 +410,7 @@ def eatHexDigitsLoop : Nat → M Unit
       if !isAsciiHexdigit cp then pure ()
       else do
         let d ← unwrap (toDigit cp 16) "validator.rs:1480 to_digit(16).unwrap()"
-        let v ← checkedI64 (16 * (← getSt).lastIntValue + d) "validator.rs:1479-1480"
-        setInt v
+        setInt (satMulAdd 16 (← getSt).lastIntValue d)     -- saturating (fix e995e57)
         advance
         eatHexDigitsLoop n
     | none => pure ()
@@ -429,8 +432,7 @@ def eatDecimalDigitsLoop : Nat → M Unit
       else do
         let cp0 ← unwrap (← codePointWithOffset 0) "validator.rs:1453 code_point_with_offset(0).unwrap()"
         let d ← unwrap (toDigit cp0 10) "validator.rs:1455 to_digit(10).unwrap()"
-        let v ← checkedI64 (10 * (← getSt).lastIntValue + d) "validator.rs:1450-1455"
-        setInt v
+        setInt (satMulAdd 10 (← getSt).lastIntValue d)     -- saturating (fix e995e57)
         advance
         eatDecimalDigitsLoop n
     | none => pure ()
@@ -524,8 +526,7 @@ def eatDecimalEscapeLoop : Nat → M Unit
       if !isAsciiDigit cp then pure ()
       else do
         let d ← unwrap (toDigit cp 10) "validator.rs:1300 to_digit(10).unwrap()"
-        let v ← checkedI64 (10 * (← getSt).lastIntValue + d) "validator.rs:1299-1300"
-        setInt v
+        setInt (satMulAdd 10 (← getSt).lastIntValue d)     -- saturating (fix e995e57)
         advance
         eatDecimalEscapeLoop n
     | none => pure ()
@@ -535,7 +536,7 @@ def eatDecimalEscape (fuel : Nat) : M Bool := do
   setInt 0
   match ← codePointWithOffset 0 with
   | some cp =>
-    if isAsciiDigit cp then do
+    if isAsciiDigit cp && cp != ch '0' then do     -- `NonZeroDigit` (fix 22e4b8a)
       let d ← unwrap (toDigit cp 10) "validator.rs:1293 to_digit(10).unwrap()"
       let v ← checkedI64 (10 * (← getSt).lastIntValue + d) "validator.rs:1292-1293"
       setInt v
@@ -661,17 +662,16 @@ def eatRegexpIdentifierPart (fuel : Nat) : M Bool := do
     if ← (pure (cp0 == some (ch '\\')) <and> eatRegexpUnicodeEscapeSequence fuel forceUFlag) then
       -- TODO (source): convert unicode code point to char
       pure (some (i64AsU32 (← getSt).lastIntValue))
-    else if forceUFlag then
-      -- `force_u_flag && is_lead_surrogate(cp.unwrap()..) && is_trail_surrogate(cp1.unwrap()..)`
-      let c ← unwrap cp0 "validator.rs:1050 cp.unwrap()"
-      if isLeadSurrogate c then
-        let c1 ← unwrap cp1 "validator.rs:1051 cp1.unwrap()"
-        if isTrailSurrogate c1 then do
+    else
+      -- `if let (true, Some(lead), Some(trail)) = (force_u_flag, cp, cp1)` (fix fe30608: no `unwrap` of a `None`)
+      match forceUFlag, cp0, cp1 with
+      | true, some c, some c1 =>
+        if isLeadSurrogate c && isTrailSurrogate c1 then do
           advance
           pure (some (i64AsU32 (combineSurrogatePair c c1)))
         else pure cp0
-      else pure cp0
-    else pure cp0 : M (Option Nat))
+      | _, _, _ => pure cp0
+    : M (Option Nat))
   let hit ← (match cp with
     | some c => do
       if ← isRegexpIdentifierPart c then do
@@ -878,6 +878,7 @@ def consumeClassRanges : Nat → M Unit
 def consumeCharacterClass (fuel : Nat) : M Bool := do
   if !(← eat '[') then pure false
   else do
+    let _ ← eat '^'                                  -- (fix feb5d01)
     consumeClassRanges fuel
     if !(← eat ']') then fail "Unterminated character class"
     else pure true
@@ -1159,7 +1160,8 @@ def validatePattern (fuel : Nat) (source : List Nat) (uFlag : Bool) : M Unit := 
     nFlag := uFlag && /- ecma_version >= Es2018 -/ true }
   -- `self.reset(source, 0, source.chars().count(), u_flag)`: `end` is the number of *scalar values* also when the
   -- reader then indexes UTF-16 code units (`u_flag = false`)
-  reset source 0 source.length uFlag
+  -- (fix d08fa84) code points with the u flag, UTF-16 code units without it
+  reset source 0 (if uFlag then source.length else (encodeUtf16 source).length) uFlag
   consumePattern fuel
   let s ← getSt
   if !s.nFlag && /- ecma_version >= Es2018 -/ true && !s.groupNames.isEmpty then
@@ -1185,9 +1187,8 @@ def checkForInvalidPattern (fuel : Nat) (source : List Nat) (uFlag : Bool) : M B
 
 /-- `no_invalid_regexp.rs:89-100`: `true` = a diagnostic is added -/
 def checkRegex (fuel : Nat) (pattern flags : List Nat) : M Bool :=
-  pure (checkForInvalidFlags flags)
-    <or> (pure (!flags.isEmpty) <and> checkForInvalidPattern fuel pattern (flags.contains (ch 'u')))
-    <or> (checkForInvalidPattern fuel pattern true <and> checkForInvalidPattern fuel pattern false)
+  -- (fix 871be28) the mode is determined by the presence of the `u` flag alone
+  pure (checkForInvalidFlags flags) <or> checkForInvalidPattern fuel pattern (flags.contains (ch 'u'))
 
 /-- generous: the recursion depth needed is below `10 * (number of code units) + 20` -/
 def defaultFuel (pattern : List Nat) : Nat := 50 * ((encodeUtf16 pattern).length + 10)
@@ -1201,21 +1202,23 @@ structure SeqResult where
   final : St
   deriving Repr
 
-/-- all regexes of one file in source order with one validator; after a panic (the lint of the file is dead) or
-fuel exhaustion the remaining entries are `false` -/
-def runSeq : List (List Nat × List Nat) → St → SeqResult
+/-- all regexes of one file in source order with one validator.  A panic unwinds out of `lint_file`: the file gets no
+diagnostics at all, so `reported` is all `false` then (same convention for fuel exhaustion). -/
+def runSeqAux : List (List Nat × List Nat) → St → SeqResult
   | [], s => { reported := [], panic := false, fuel := false, why := none, final := s }
   | (p, f) :: rest, s =>
     match checkRegex (defaultFuel p) p f s with
     | .ok b s' =>
-      let r := runSeq rest s'
+      let r := runSeqAux rest s'
       { r with reported := b :: r.reported }
     | .err m s' => -- unreachable: `checkRegex` turns every `Err` into a Boolean
-      { reported := false :: rest.map (fun _ => false), panic := true, fuel := false, why := some s!"err escaped: {m}", final := s' }
-    | .panic m s' =>
-      { reported := false :: rest.map (fun _ => false), panic := true, fuel := false, why := some m, final := s' }
-    | .outOfFuel s' =>
-      { reported := false :: rest.map (fun _ => false), panic := false, fuel := true, why := none, final := s' }
+      { reported := [], panic := true, fuel := false, why := some s!"err escaped: {m}", final := s' }
+    | .panic m s' => { reported := [], panic := true, fuel := false, why := some m, final := s' }
+    | .outOfFuel s' => { reported := [], panic := false, fuel := true, why := none, final := s' }
+
+def runSeq (seq : List (List Nat × List Nat)) (s : St) : SeqResult :=
+  let r := runSeqAux seq s
+  if r.panic || r.fuel then { r with reported := seq.map fun _ => false } else r
 
 /-- `&str` → its scalar values -/
 def ofString (s : String) : List Nat := s.toList.map Char.toNat
